@@ -47,6 +47,9 @@ _BLOCKS = [
     ([("bool_{n}", "True", bool), ("int_{n}", "4", int), ("res_{n}", "{m}.pick(bool_{n}, int_{n})", int)], "res_{n}"),
     ([("int_{n}", "9", int), ("box_{n}", "{m}.Box(int_{n})", None), ("res_{n}", "box_{n}.get()", int)], "res_{n}"),
     ([("int_{n}", "5", int)], None),
+    # an asserted value three dependency levels below its first input (only the last statement carries the assertion)
+    ([("int_{n}", "3", int), ("one_{n}", "{m}.increment(int_{n})", int), ("two_{n}", "{m}.increment(one_{n})", int),
+      ("res_{n}", "{m}.increment(two_{n})", int)], "res_{n}"),
 ]
 
 
@@ -127,7 +130,9 @@ def _shard_c22(args):
     specs = _suite_specs(tier)
     rnd.shuffle(specs)
     cap = 4000 if tier == "thorough" else 320
-    specs = specs[:cap]
+    # always included: the deep assertion chain next to code that makes its coverage redundant (within one test and across tests)
+    directed = [((6, 6),), ((6, 2),), ((2, 6),), ((6,), (6,)), ((6, 0), (2,)), ((6, 6), (6,))]
+    specs = directed + [s for s in specs[:cap] if s not in directed]
 
     def fresh_cov(suite):
         f = tsc.TestSuiteChromosome()
